@@ -488,6 +488,33 @@ func runCase(c Case) vh.Record {
 			ctor = "CStrAbs"
 		}
 		return vh.Record{Case: raw, Coq: fmt.Sprintf("%s %s %s", ctor, vh.CoqList(zs), rt), Obs: obsJSON(map[string]interface{}{"src": src, "r": rep}), Tags: tags, Nontrivial: true}
+	case "leaf":
+		// the number constructors called directly through the hooks (used by the leaf-translation stage of
+		// checks/C05.py, and sampled by the generator): op = intToValue (x: int64, decimal) | floatToValue (a: bits)
+		var v goja.Value
+		var bits uint64
+		switch c.Op {
+		case "intToValue":
+			x, _ := strconv.ParseInt(c.X, 10, 64)
+			v = goja.VerifIntToValue(x)
+			bits = math.Float64bits(float64(x)) // the Number an int64 denotes: float64(x), correctly rounded
+			tags = append(tags, "op:intToValue", "a:"+classTag(float64(x)))
+		case "floatToValue":
+			f := fOf(c.A)
+			v = goja.VerifFloatToValue(f)
+			bits = math.Float64bits(f)
+			tags = append(tags, "op:floatToValue", "a:"+classTag(f))
+		default:
+			return skip(c, "unknown leaf op")
+		}
+		rt, rep, ok := coqNum(v)
+		if !ok {
+			return vh.Record{Case: raw, Coq: failTerm, Obs: obsJSON(map[string]interface{}{"r": rep}), Tags: append(tags, "notnumber")}
+		}
+		if math.IsNaN(math.Float64frombits(bits)) {
+			bits = 0x7FF8000000000000
+		}
+		return vh.Record{Case: raw, Coq: fmt.Sprintf("CVal %d %s", bits, rt), Obs: obsJSON(map[string]interface{}{"r": rep}), Tags: tags, Nontrivial: true}
 	case "pow":
 		x, _ := strconv.ParseInt(c.X, 10, 64)
 		vm.Set("a", rawValue(float64(x)))
